@@ -29,6 +29,17 @@ def rule(name, pattern, replacement, doc):
     RULES[name] = ("pat", [x.replace("\u2423", " ") for x in pattern.split()], [x.replace("\u2423", " ") for x in replacement.split()], doc)
 
 
+def also(name, pattern, replacement):
+    """a further spelling of the same comparison handled by an existing pattern rule (operands swapped, `==` for `!=`, ...):
+    the unit that requests the rule gets every spelling, so that a refactoring which only mirrors a comparison stays specified"""
+    kind, a, b, doc = RULES[name]
+    sp = lambda x: [y.replace("\u2423", " ") for y in x.split()]
+    if kind == "pat":
+        RULES[name] = ("multi", [(a, b), (sp(pattern), sp(replacement))], None, doc)
+    else:
+        a.append((sp(pattern), sp(replacement)))
+
+
 def pyrule(name, fn, doc):
     if name in RULES:
         raise ValueError("duplicate rewrite rule name " + name)
@@ -161,6 +172,12 @@ def apply(name, toks, ctx=None):
     kind, a, b, doc = RULES[name]
     if kind == "pat":
         return apply_pat(toks, a, b)
+    if kind == "multi":
+        total = 0
+        for pa, re_ in a:
+            toks, c = apply_pat(toks, pa, re_)
+            total += c
+        return toks, total
     if kind == "pyctx":
         return a(toks, ctx or {})
     return a(toks)
@@ -1309,3 +1326,24 @@ def let_else_continue(toks):
 
 
 pyrule("D17.let_else_continue", let_else_continue, let_else_continue.__doc__)
+
+
+# ---- mirrored / negated spellings of the comparisons that have no vstd specification (String, str, [u8], Digest operands)
+also("D6.string_ne_field", "c . hash != hash", "shim_string_ne ( & hash , & c . hash )")
+also("D6.string_ne_field", "hash == c . hash", "! shim_string_ne ( & hash , & c . hash )")
+also("D6.string_ne_field", "c . hash == hash", "! shim_string_ne ( & hash , & c . hash )")
+also("D6.digest_ne", "c . digest != digest", "shim_digest_ne ( & digest , & c . digest )")
+also("D6.digest_ne", "digest == c . digest", "! shim_digest_ne ( & digest , & c . digest )")
+also("D6.digest_ne", "c . digest == digest", "! shim_digest_ne ( & digest , & c . digest )")
+also("D6.str_lt", "pkg2 > pkg1", "shim_str_lt ( pkg1 , pkg2 )")
+also("D6.str_lt", "pkg1 >= pkg2", "! shim_str_lt ( pkg1 , pkg2 )")
+also("D6.str_lt", "pkg2 <= pkg1", "! shim_str_lt ( pkg1 , pkg2 )")
+also("D6.str_lt", "pkg2 < pkg1", "shim_str_lt ( pkg2 , pkg1 )")
+also("D6.str_lt", "pkg1 > pkg2", "shim_str_lt ( pkg2 , pkg1 )")
+also("D6.str_lt", "pkg2 >= pkg1", "! shim_str_lt ( pkg2 , pkg1 )")
+also("D6.str_lt", "pkg1 <= pkg2", "! shim_str_lt ( pkg2 , pkg1 )")
+also("D6.string_eq_lit", "$l:str == action", "shim_string_eq_str ( & action , $l )")
+also("D6.string_eq_lit", "action != $l:str", "! shim_string_eq_str ( & action , $l )")
+also("D6.string_eq_lit", "$l:str != action", "! shim_string_eq_str ( & action , $l )")
+also("D6.slice_ne_lit", "$l:str != s", "shim_slice_ne ( s , $l )")
+also("D6.slice_ne_lit", "s == $l:str", "! shim_slice_ne ( s , $l )")
